@@ -60,6 +60,11 @@ CHECKS["C12"] = ("exploration",
   "Every const section of the grammar (external, literal, reference, min/max/+/- incl. nesting, up to 3 declarations across two parties) for six constant types is combined with every use template and every assignment of the externals; the harness evaluates the constants itself (wrapping arithmetic of the constant's type), substitutes the values as literals and requires the real compiler to produce the same party sizes, output width and outputs on every input. All 8^3 x 2 combinations of fine/missing/wrongly-typed constants must return an error naming each offending constant, never a panic.",
   "Sizes above 48 elements are excluded from size positions (resource bound). Panic locations are not compared across the two source texts.", "DESIGN.md §4 C12")
 
+CHECKS["C13"] = ("exploration",
+  "zero-one-principle enumeration of all 0/1 inputs of the real comparator networks (hook H1) for every length up to L; exhaustive enumeration of all pairs of sorted key arrays over a small key domain for every size pair, for for-join programs (vs. reference interpreter) and the join built-in (vs. set-intersection oracle)",
+  "The sorting network is decided for every length <= L by the zero-one principle (all 2^L key vectors, payload = input position must travel with its key). For every size pair (n,m) <= N, several key types and payload shapes, the for-join program is run on all pairs of strictly ascending key arrays over a 6-value domain (incl. 0 and MAX, plus every zero-divisor position so that panics in non-joined iterations would show) and compared with the reference interpreter; the join built-in is run on all pairs of non-decreasing arrays (same-side duplicates) and must flag exactly the common keys once, zero the rest and sort the flags with one data-independent orientation.",
+  "Size bounds n,m <= 4-6, key domains of 4-6 values; multi-bit keys beyond the domains rely on the zero-one argument for the networks.", "DESIGN.md §4 C13")
+
 NOT_YET = {
 }
 
